@@ -1,12 +1,15 @@
 import DryocVerif.Model.PwhashStr
 import DryocVerif.Proofs.Base64Lemmas
 import DryocVerif.Proofs.PwhashStr
+import DryocVerif.Proofs.PwhashExtra
 /-
 C10 — the password-hash STRING layer (`Model.PwhashStr`, mirroring
 `pwhash_to_string`, `Pwhash::parse_encoded_pwhash`, `crypto_pwhash_str_verify`,
 `crypto_pwhash_str_needs_rehash`, `PwHash::to_string/from_string`).
 
-Helper lemmas live in `Proofs/PwhashStr.lean`.
+Helper lemmas live in `Proofs/PwhashStr.lean`; §9–§13 (the producer `crypto_pwhash_str`, the
+code-shaped `from_string`/`to_string` and `from_string`/`verify` routes of `Model/PwhashApi.lean`,
+and the instance with the project's Argon2 model) rest on `Proofs/PwhashExtra.lean`.
 -/
 namespace DryocVerif.Properties.C10
 open DryocVerif DryocVerif.Spec.Base64 DryocVerif.Model.PwhashStr
@@ -258,6 +261,379 @@ theorem reencode_idempotent (s s' : Str) (h : reencode s = .ok s') : reencode s'
   rw [hp] at h
   rw [hp']
   exact h
+
+/-! ## 9. the producer: `crypto_pwhash_str`
+
+`pwhashStr argon2 pwd salt opslimit memlimit` (`Model/PwhashApi.lean`) follows `crypto_pwhash_str`:
+the two `validate!`s, `convert_costs`, `argon2_hash(t, m, 1, pwd, salt, None, None, &mut [0u8; 32],
+Argon2id)`, `pwhash_to_string`; the 16 random salt bytes are a parameter.  The driver's
+`pwhash_str` operation calls this very definition (with `argon2 = argon2Model`).
+
+The generic statements need two facts: the salt is non-empty (it has 16 bytes in the Rust) and
+Argon2 returns a non-empty hash (`hne`; it returns 32 bytes) — the parser rejects empty fields.
+For the project's Argon2 model both follow from `Ok` itself, see §12. -/
+
+/-- `crypto_pwhash_str` returns `Ok(s)` exactly when both limits are in range and Argon2id with
+`t = opslimit`, `m = memlimit / 1024`, one lane, 32 output bytes succeeds; `s` is then the
+encoding of these very costs, the salt and that hash — no hypotheses -/
+theorem pwhashStr_ok_iff (argon2 : Argon2Fn) (pwd salt : Bytes) (opslimit memlimit : Nat) (s : Str) :
+    pwhashStr argon2 pwd salt opslimit memlimit = .ok s ↔
+      (1 ≤ opslimit ∧ opslimit ≤ 4294967295) ∧ (8192 ≤ memlimit ∧ memlimit ≤ 4398046510080) ∧
+      ∃ hash, argon2 2 opslimit (memlimit / 1024) 1 pwd salt 32 = .ok hash ∧
+        s = encode .argon2id opslimit (memlimit / 1024) salt hash :=
+  Proofs.PwhashExtra.pwhashStr_ok_iff argon2 pwd salt opslimit memlimit s
+
+/-- it returns `Err` exactly when a limit is out of range or Argon2 errs, and panics exactly when
+the limits are in range and Argon2 panics -/
+theorem pwhashStr_err_iff (argon2 : Argon2Fn) (pwd salt : Bytes) (opslimit memlimit : Nat) :
+    pwhashStr argon2 pwd salt opslimit memlimit = .err ↔
+      ¬ ((1 ≤ opslimit ∧ opslimit ≤ 4294967295) ∧ (8192 ≤ memlimit ∧ memlimit ≤ 4398046510080)) ∨
+      argon2 2 opslimit (memlimit / 1024) 1 pwd salt 32 = .err :=
+  Proofs.PwhashExtra.pwhashStr_err_iff argon2 pwd salt opslimit memlimit
+
+theorem pwhashStr_panic_iff (argon2 : Argon2Fn) (pwd salt : Bytes) (opslimit memlimit : Nat) :
+    pwhashStr argon2 pwd salt opslimit memlimit = .panic ↔
+      ((1 ≤ opslimit ∧ opslimit ≤ 4294967295) ∧ (8192 ≤ memlimit ∧ memlimit ≤ 4398046510080)) ∧
+      argon2 2 opslimit (memlimit / 1024) 1 pwd salt 32 = .panic :=
+  Proofs.PwhashExtra.pwhashStr_panic_iff argon2 pwd salt opslimit memlimit
+
+/-- **(a) self-describing.**  The returned string parses to exactly the algorithm (Argon2id), the
+costs `(opslimit, memlimit / 1024)`, the salt and the hash that were actually used — "encodes the
+costs, salt and hash actually used". -/
+theorem pwhashStr_self_describing {argon2 : Argon2Fn} {pwd salt : Bytes} {opslimit memlimit : Nat}
+    {s : Str} (hs : salt ≠ [])
+    (hne : ∀ h, argon2 2 opslimit (memlimit / 1024) 1 pwd salt 32 = .ok h → h ≠ [])
+    (h : pwhashStr argon2 pwd salt opslimit memlimit = .ok s) :
+    ∃ hash, argon2 2 opslimit (memlimit / 1024) 1 pwd salt 32 = .ok hash ∧
+      s = encode .argon2id opslimit (memlimit / 1024) salt hash ∧
+      parse s = .ok { pwhash := some hash, salt := some salt, ty := some .argon2id,
+                      t := some opslimit, m := some (memlimit / 1024), p := some 1,
+                      version := some 19 } :=
+  Proofs.PwhashExtra.pwhashStr_parse hs hne h
+
+/-- **(b)** `crypto_pwhash_str_verify(crypto_pwhash_str(pwd, …)?, pwd)` is `Ok` -/
+theorem pwhashStr_verify {argon2 : Argon2Fn} {pwd salt : Bytes} {opslimit memlimit : Nat} {s : Str}
+    (hs : salt ≠ [])
+    (hne : ∀ h, argon2 2 opslimit (memlimit / 1024) 1 pwd salt 32 = .ok h → h ≠ [])
+    (h : pwhashStr argon2 pwd salt opslimit memlimit = .ok s) :
+    strVerify argon2 s pwd = .ok () :=
+  Proofs.PwhashExtra.pwhashStr_verify hs hne h
+
+/-- **(c)** for ANY candidate `pwd'`: accepted iff Argon2 (same algorithm, costs, salt) gives on
+`pwd'` what it gave on `pwd` — i.e. rejected unless Argon2 collides -/
+theorem pwhashStr_verify_iff {argon2 : Argon2Fn} {pwd salt : Bytes} {opslimit memlimit : Nat} {s : Str}
+    (hs : salt ≠ [])
+    (hne : ∀ h, argon2 2 opslimit (memlimit / 1024) 1 pwd salt 32 = .ok h → h ≠ [])
+    (h : pwhashStr argon2 pwd salt opslimit memlimit = .ok s) (pwd' : Bytes) :
+    strVerify argon2 s pwd' = .ok () ↔
+      argon2 2 opslimit (memlimit / 1024) 1 pwd' salt 32
+        = argon2 2 opslimit (memlimit / 1024) 1 pwd salt 32 :=
+  Proofs.PwhashExtra.pwhashStr_verify_iff hs hne h pwd'
+
+/-- **(d)** `crypto_pwhash_str_needs_rehash(s, o', l')` on the producer's output is `Ok(true)`
+exactly when a cost differs after `convert_costs` (`o' as u32`, `(l' / 1024) as u32`) … -/
+theorem pwhashStr_needs_rehash {argon2 : Argon2Fn} {pwd salt : Bytes} {opslimit memlimit : Nat} {s : Str}
+    (hs : salt ≠ [])
+    (hne : ∀ h, argon2 2 opslimit (memlimit / 1024) 1 pwd salt 32 = .ok h → h ≠ [])
+    (h : pwhashStr argon2 pwd salt opslimit memlimit = .ok s) (opslimit' memlimit' : Nat) :
+    needsRehash s opslimit' memlimit' =
+      .ok (decide (¬ (opslimit = opslimit' % 2 ^ 32 ∧ memlimit / 1024 = memlimit' / 1024 % 2 ^ 32))) :=
+  Proofs.PwhashExtra.pwhashStr_needsRehash hs hne h opslimit' memlimit'
+
+/-- … in particular `Ok(false)` for the limits the string was made with -/
+theorem pwhashStr_needs_rehash_same {argon2 : Argon2Fn} {pwd salt : Bytes} {opslimit memlimit : Nat}
+    {s : Str} (hs : salt ≠ [])
+    (hne : ∀ h, argon2 2 opslimit (memlimit / 1024) 1 pwd salt 32 = .ok h → h ≠ [])
+    (h : pwhashStr argon2 pwd salt opslimit memlimit = .ok s) :
+    needsRehash s opslimit memlimit = .ok false :=
+  Proofs.PwhashExtra.pwhashStr_needsRehash_same hs hne h
+
+/-- … and `Ok(true)` for in-range limits of which one differs after the KiB truncation -/
+theorem pwhashStr_needs_rehash_other {argon2 : Argon2Fn} {pwd salt : Bytes} {opslimit memlimit : Nat}
+    {s : Str} (hs : salt ≠ [])
+    (hne : ∀ h, argon2 2 opslimit (memlimit / 1024) 1 pwd salt 32 = .ok h → h ≠ [])
+    (h : pwhashStr argon2 pwd salt opslimit memlimit = .ok s) (opslimit' memlimit' : Nat)
+    (ho : opslimit' < 2 ^ 32) (hl : memlimit' / 1024 < 2 ^ 32)
+    (hd : opslimit' ≠ opslimit ∨ memlimit' / 1024 ≠ memlimit / 1024) :
+    needsRehash s opslimit' memlimit' = .ok true := by
+  rw [Proofs.PwhashExtra.pwhashStr_needsRehash hs hne h, Nat.mod_eq_of_lt ho, Nat.mod_eq_of_lt hl]
+  simp only [Outcome.ok.injEq, decide_eq_true_eq]
+  omega
+
+/-- a toy `argon2` (the first `n` bytes of `pwd ‖ salt ‖ ty ‖ t ‖ m`) for concrete witnesses -/
+def toyArgon2 : Argon2Fn := fun ty t m _ pwd salt n =>
+  .ok ((pwd ++ salt ++ [UInt8.ofNat ty, UInt8.ofNat t, UInt8.ofNat m]).take n)
+
+/-- non-vacuity witnesses for §9: the producer succeeds on a concrete input, the hypotheses `hs`,
+`hne` hold there, and the conclusions are as stated -/
+example : pwhashStr toyArgon2 [7] [1, 2] 2 8192 = .ok (encode .argon2id 2 8 [1, 2] [7, 1, 2, 2, 2, 8]) := by
+  decide
+example : ([1, 2] : Bytes) ≠ [] ∧ ∀ h, toyArgon2 2 2 (8192 / 1024) 1 [7] [1, 2] 32 = .ok h → h ≠ [] :=
+  ⟨by decide, fun h e => by cases e; decide⟩
+example : pwhashStr toyArgon2 [7] [1, 2] 2 8192 = .ok "$argon2id$v=19$m=8,t=2,p=1$AQI$BwECAgII".toList := by
+  decide
+example : strVerify toyArgon2 "$argon2id$v=19$m=8,t=2,p=1$AQI$BwECAgII".toList [7] = .ok () := by decide
+example : strVerify toyArgon2 "$argon2id$v=19$m=8,t=2,p=1$AQI$BwECAgII".toList [6] = .err := by decide
+example : needsRehash "$argon2id$v=19$m=8,t=2,p=1$AQI$BwECAgII".toList 2 8192 = .ok false := by decide
+example : needsRehash "$argon2id$v=19$m=8,t=2,p=1$AQI$BwECAgII".toList 2 (8192 + 1023) = .ok false := by decide
+example : needsRehash "$argon2id$v=19$m=8,t=2,p=1$AQI$BwECAgII".toList 2 (8192 + 1024) = .ok true := by decide
+example : needsRehash "$argon2id$v=19$m=8,t=2,p=1$AQI$BwECAgII".toList 3 8192 = .ok true := by decide
+-- the error side is inhabited
+example : pwhashStr toyArgon2 [7] [1, 2] 0 8192 = .err := by decide
+example : pwhashStr toyArgon2 [7] [1, 2] 2 8191 = .err := by decide
+example : pwhashStr toyArgon2 [7] [1, 2] 2 4398046510081 = .err := by decide
+
+/-- witness for `strVerify_iff` (§7) with a concrete `argon2`: both sides hold for the right
+password and both fail for a wrong one -/
+example : strVerify toyArgon2 (encode .argon2id 2 8 [1, 2] [7, 1, 2, 2, 2, 8]) [7] = .ok ()
+    ∧ toyArgon2 Alg.argon2id.num 2 8 1 [7] [1, 2] 32 = .ok [7, 1, 2, 2, 2, 8] := by decide
+example : strVerify toyArgon2 (encode .argon2id 2 8 [1, 2] [7, 1, 2, 2, 2, 8]) [6] ≠ .ok ()
+    ∧ toyArgon2 Alg.argon2id.num 2 8 1 [6] [1, 2] 32 ≠ .ok [7, 1, 2, 2, 2, 8] := by decide
+
+/-- witness for `needs_rehash_of_parse` (§5) on an accepted string that is NOT an encoder output
+(parameters reordered, a `+` sign, a doubled `$`): its canonical re-print differs from it -/
+example : parse "$argon2i$$v=19$t=3,p=1,m=+65536$AA$/w".toList =
+    .ok { pwhash := some [255], salt := some [0], ty := some .argon2i, t := some 3,
+          m := some 65536, p := some 1, version := some 19 } := by decide
+example : reencode "$argon2i$$v=19$t=3,p=1,m=+65536$AA$/w".toList
+    = .ok "$argon2i$v=19$m=65536,t=3,p=1$AA$/w".toList := by decide
+example : needsRehash "$argon2i$$v=19$t=3,p=1,m=+65536$AA$/w".toList 3 (65536 * 1024) = .ok false := by
+  decide
+example : needsRehash "$argon2i$$v=19$t=3,p=1,m=+65536$AA$/w".toList (3 + 2 ^ 32) (65536 * 1024 + 5)
+    = .ok false := by decide
+example : needsRehash "$argon2i$$v=19$t=3,p=1,m=+65536$AA$/w".toList 4 (65536 * 1024) = .ok true := by
+  decide
+
+/-! ## 10. `PwHash::from_string(s)?.to_string()` along the code's path
+
+`reencode` prints the parsed costs directly.  The code instead stores `opslimit = t_cost as u64`,
+`memlimit = 1024 * (m_cost as usize)` in the `Config`, and `to_string` runs `convert_costs` on them
+again: that is `reencodeRaw`. -/
+
+/-- `convert_costs(t as u64, 1024 * m) = (t, m)` for `u32` costs: the round trip through
+`memlimit` loses nothing -/
+theorem convertCosts_roundtrip {t m : Nat} (ht : t < 2 ^ 32) (hm : m < 2 ^ 32) :
+    Model.Argon2.convertCosts t (1024 * m) = (t, m) :=
+  Proofs.PwhashExtra.convertCosts_roundtrip ht hm
+
+/-- the range is needed (beyond `u32` the second `convert_costs` truncates) — and is guaranteed by
+the parser (`parse_ok_range`) -/
+example : Model.Argon2.convertCosts (2 ^ 32) (1024 * 2 ^ 32) = (0, 0) := by decide
+example : (3 : Nat) < 2 ^ 32 ∧ (65536 : Nat) < 2 ^ 32 := by decide
+
+/-- **the code-shaped path equals the direct one on every input** (accepted or not): the checked
+`usize` product `1024 * m_cost` cannot overflow on a 64-bit target and `convert_costs` gives the
+parsed costs back, because the parser only accepts `u32` costs -/
+theorem reencodeRaw_eq_reencode (s : Str) : reencodeRaw s = reencode s :=
+  Proofs.PwhashExtra.reencodeRaw_eq_reencode s
+
+/-- so everything proved about `reencode` holds for the code-shaped path -/
+theorem reencodeRaw_encode (alg : Alg) (t m : Nat) (salt hash : Bytes)
+    (ht : t < 2 ^ 32) (hm : m < 2 ^ 32) (hs : salt ≠ []) (hh : hash ≠ []) :
+    reencodeRaw (encode alg t m salt hash) = .ok (encode alg t m salt hash) := by
+  rw [reencodeRaw_eq_reencode]; exact reencode_encode alg t m salt hash ht hm hs hh
+
+theorem reencodeRaw_never_panics (s : Str) : reencodeRaw s ≠ .panic := by
+  rw [reencodeRaw_eq_reencode]; exact reencode_never_panics s
+
+theorem reencodeRaw_idempotent (s s' : Str) (h : reencodeRaw s = .ok s') : reencodeRaw s' = .ok s' := by
+  rw [reencodeRaw_eq_reencode] at h ⊢; exact reencode_idempotent s s' h
+
+example : reencodeRaw "$argon2i$$v=19$t=3,p=1,m=+65536$AA$/w".toList
+    = .ok "$argon2i$v=19$m=65536,t=3,p=1$AA$/w".toList := by decide
+example : reencodeRaw "$argon2id$v=19$m=4294967295,t=4294967295,p=1$AA$/w".toList
+    = .ok "$argon2id$v=19$m=4294967295,t=4294967295,p=1$AA$/w".toList := by decide
+
+/-! ## 11. the two verification routes
+
+**About the reviewed claim.**  `crypto_pwhash_str_verify` (crypto_pwhash.rs) does NOT go through
+`crypto_pwhash`: it calls `argon2_hash(t, m, p, pwd, salt, None, None, &mut [0u8; STR_HASHBYTES],
+type)` directly and compares the 32-byte buffer with the parsed hash by `ct_eq` — which is what
+`strVerify` models (output length 32, no `crypto_pwhash` range checks).  The route through
+`crypto_pwhash` with the parsed hash's length exists too: it is the object API's
+`PwHash::from_string(s)?.verify(pwd)`, modelled by `strVerifyRaw`.  The two routes agree exactly on
+the strings whose hash field has 32 bytes; on any other accepted string the classic function
+rejects every password while the object API accepts the right one (this is the caveat in the doc
+comment of `PwHash::to_string`). -/
+
+/-- the object route says `Ok` exactly when `crypto_pwhash`, with the parsed hash's length and
+`(opslimit, memlimit) = (t, 1024·m)`, reproduces the parsed hash -/
+theorem strVerifyRaw_iff {s : Str} {ty : Alg} {t m : Nat} {salt hash : Bytes} (pwd : Bytes)
+    (hp : parse s = .ok { pwhash := some hash, salt := some salt, ty := some ty, t := some t,
+                          m := some m, p := some 1, version := some 19 }) :
+    strVerifyRaw s pwd = .ok () ↔
+      Model.Argon2.cryptoPwhash hash.length pwd salt t (1024 * m) ty.num = .ok hash :=
+  Proofs.PwhashExtra.strVerifyRaw_iff pwd hp
+
+/-- `crypto_pwhash(n, pwd, salt, t, 1024·m, alg)` IS `argon2_hash(t, m, 1, …)` for `u32` costs:
+the additional range checks of `crypto_pwhash` (`t ≥ 1`, `1024·m ≥ 8192`, `1024·m ≤ MEMLIMIT_MAX`)
+accept and reject exactly what `Argon2Context::new` does (`t ≥ 1`, `m ≥ 8`, `m ≤ 2^32 − 1`) -/
+theorem cryptoPwhash_of_parsed_costs {n : Nat} {pwd salt : Bytes} {t m alg : Nat}
+    (halg : alg = 1 ∨ alg = 2) (ht : t < 2 ^ 32) (hm : m < 2 ^ 32) :
+    Model.Argon2.cryptoPwhash n pwd salt t (1024 * m) alg
+      = Model.Argon2.argon2Hash alg t m 1 pwd salt none none n :=
+  Proofs.PwhashExtra.cryptoPwhash_of_costs halg ht hm
+
+/-- **agreement**: on every string whose hash field (if it parses) has `STR_HASHBYTES = 32` bytes
+— in particular on every output of `crypto_pwhash_str` — the two routes give the same result, be it
+`Ok`, `Err` or a panic; costs outside `crypto_pwhash`'s range make no difference -/
+theorem strVerifyRaw_eq_strVerify (s : Str) (pwd : Bytes)
+    (h32 : ∀ r h, parse s = .ok r → r.pwhash = some h → h.length = 32) :
+    strVerifyRaw s pwd = strVerify argon2Model s pwd :=
+  Proofs.PwhashExtra.strVerifyRaw_eq_strVerify s pwd h32
+
+/-- **disagreement, classic side**: on an accepted string whose hash field is not 32 bytes long
+`crypto_pwhash_str_verify` returns `Err` for every password -/
+theorem strVerify_rejects_other_lengths {s : Str} {r : Parsed} {hash : Bytes} {m : Nat} (pwd : Bytes)
+    (hp : parse s = .ok r) (hh : r.pwhash = some hash) (hm : r.m = some m)
+    (hl : hash.length ≠ 32) (h7 : 7 * (max m 8 / 4) < 2 ^ 32 + 3) :
+    strVerify argon2Model s pwd = .err :=
+  Proofs.PwhashExtra.strVerify_model_other_length pwd hp hh hm hl h7
+
+/-- **disagreement, object side**: `PwHash::from_string(s)?.verify(pwd)` accepts `pwd` on the
+string of a `PwHash` of ANY hash length `16 ≤ n < 2^32 − 1` made from `pwd` (hash = the RFC tag) -/
+theorem strVerifyRaw_accepts_own {alg : Alg} {t m n : Nat} {pwd salt : Bytes}
+    (hv : Proofs.Argon2.Valid n pwd.length salt.length none none t m 1) (hn : n < 0xFFFFFFFF)
+    (h7 : 7 * (m / 4) < 2 ^ 32 + 3) :
+    strVerifyRaw (encode alg t m salt (Spec.Argon2.argon2 alg.num pwd salt [] [] t m 1 n)) pwd
+      = .ok () :=
+  Proofs.PwhashExtra.strVerifyRaw_accepts_own hv hn h7
+
+/-- the concrete divergence: for the 16-byte-hash string of password `[1,2,3,4]` (Argon2id,
+`t = 1`, `m = 8`, salt `0..7`) the object API verifies the password and the classic function
+rejects it -/
+theorem verify_routes_differ :
+    let s := encode .argon2id 1 8 [0, 1, 2, 3, 4, 5, 6, 7]
+      (Spec.Argon2.argon2 2 [1, 2, 3, 4] [0, 1, 2, 3, 4, 5, 6, 7] [] [] 1 8 1 16)
+    strVerifyRaw s [1, 2, 3, 4] = .ok () ∧ strVerify argon2Model s [1, 2, 3, 4] = .err := by
+  intro s
+  have hv : Proofs.Argon2.Valid 16 ([1, 2, 3, 4] : Bytes).length
+      ([0, 1, 2, 3, 4, 5, 6, 7] : Bytes).length none none 1 8 1 := by constructor <;> simp
+  have hlen := Proofs.PwhashExtra.spec_argon2_length 2 [1, 2, 3, 4] [0, 1, 2, 3, 4, 5, 6, 7] [] [] 1 8 1 16
+  refine ⟨Proofs.PwhashExtra.strVerifyRaw_accepts_own (alg := .argon2id) hv (by decide) (by decide), ?_⟩
+  have hp := parse_encode .argon2id 1 8 [0, 1, 2, 3, 4, 5, 6, 7]
+    (Spec.Argon2.argon2 2 [1, 2, 3, 4] [0, 1, 2, 3, 4, 5, 6, 7] [] [] 1 8 1 16) (by decide) (by decide)
+    (by decide) (by intro e; rw [e] at hlen; simp at hlen)
+  exact Proofs.PwhashExtra.strVerify_model_other_length (m := 8) _ hp rfl rfl
+    (by rw [hlen]; decide) (by decide)
+
+/-- non-vacuity witness for `strVerifyRaw_eq_strVerify`: `h32` holds on every encoder output with a
+32-byte hash … -/
+example (alg : Alg) (t m : Nat) (salt hash : Bytes) (ht : t < 2 ^ 32) (hm : m < 2 ^ 32)
+    (hs : salt ≠ []) (hl : hash.length = 32) :
+    ∀ r h, parse (encode alg t m salt hash) = .ok r → r.pwhash = some h → h.length = 32 := by
+  intro r h hp hh
+  rw [parse_encode alg t m salt hash ht hm hs (by intro e; rw [e] at hl; simp at hl)] at hp
+  cases hp; cases hh; exact hl
+
+/-! ## 12. the string layer with the project's Argon2 model (`argon2Model` = `argon2_hash` of
+`Model/Argon2.lean`, no secret, no associated data), in RFC 9106 terms -/
+
+/-- whenever the model of `argon2_hash` returns `Ok`, the parameters were valid (salt ≥ 8 bytes, …)
+and the hash has the requested length — so `hs` and `hne` of §9 come for free -/
+theorem model_side_conditions {pwd salt : Bytes} {opslimit memlimit : Nat} {s : Str}
+    (h : pwhashStr argon2Model pwd salt opslimit memlimit = .ok s) :
+    salt ≠ [] ∧ ∀ h, argon2Model 2 opslimit (memlimit / 1024) 1 pwd salt 32 = .ok h → h ≠ [] :=
+  Proofs.PwhashExtra.model_side h
+
+/-- (a)+(b)+(d) for the model, **without any hypothesis** beyond `Ok`: the output of
+`crypto_pwhash_str` parses to the record of what was used, verifies, and needs no rehash -/
+theorem pwhashStr_model_sound {pwd salt : Bytes} {opslimit memlimit : Nat} {s : Str}
+    (h : pwhashStr argon2Model pwd salt opslimit memlimit = .ok s) :
+    (∃ hash, argon2Model 2 opslimit (memlimit / 1024) 1 pwd salt 32 = .ok hash ∧ hash.length = 32 ∧
+      s = encode .argon2id opslimit (memlimit / 1024) salt hash ∧
+      parse s = .ok { pwhash := some hash, salt := some salt, ty := some .argon2id,
+                      t := some opslimit, m := some (memlimit / 1024), p := some 1,
+                      version := some 19 })
+    ∧ strVerify argon2Model s pwd = .ok ()
+    ∧ needsRehash s opslimit memlimit = .ok false := by
+  obtain ⟨hs, hne⟩ := Proofs.PwhashExtra.model_side h
+  obtain ⟨hash, ha, e, hp⟩ := Proofs.PwhashExtra.pwhashStr_parse hs hne h
+  exact ⟨⟨hash, ha, (Proofs.PwhashExtra.argon2Model_ok_inv ha).2, e, hp⟩,
+    Proofs.PwhashExtra.pwhashStr_verify hs hne h, Proofs.PwhashExtra.pwhashStr_needsRehash_same hs hne h⟩
+
+/-- `crypto_pwhash_str` is `crypto_pwhash` (32 bytes, Argon2id13) followed by the encoder -/
+theorem pwhashStr_model_eq_cryptoPwhash (pwd salt : Bytes) (opslimit memlimit : Nat) :
+    pwhashStr argon2Model pwd salt opslimit memlimit =
+      match Model.Argon2.cryptoPwhash 32 pwd salt opslimit memlimit 2 with
+      | .ok hash => .ok (encode .argon2id opslimit (memlimit / 1024) salt hash)
+      | .err => .err
+      | .panic => .panic :=
+  Proofs.PwhashExtra.pwhashStr_model_eq_cryptoPwhash pwd salt opslimit memlimit
+
+/-- on the documented domain (`memlimit` below ≈ 2.28 TiB) `crypto_pwhash_str` is total: the
+encoding of the RFC 9106 Argon2id tag when the arguments are valid, `Err` otherwise, never a panic -/
+theorem pwhashStr_model_total {pwd salt : Bytes} {opslimit memlimit : Nat}
+    (h7 : 7 * (memlimit / 1024 / 4) < 2 ^ 32 + 3) :
+    (Proofs.Argon2.PwhashValid 32 pwd.length salt.length opslimit memlimit ∧
+      pwhashStr argon2Model pwd salt opslimit memlimit
+        = .ok (encode .argon2id opslimit (memlimit / 1024) salt
+            (Spec.Argon2.argon2 2 pwd salt [] [] opslimit (memlimit / 1024) 1 32))) ∨
+    (¬ Proofs.Argon2.PwhashValid 32 pwd.length salt.length opslimit memlimit ∧
+      pwhashStr argon2Model pwd salt opslimit memlimit = .err) :=
+  Proofs.PwhashExtra.pwhashStr_model_total h7
+
+/-- **(c) for the model, in RFC terms**: `crypto_pwhash_str_verify(s, pwd')` on an output `s` of
+`crypto_pwhash_str(pwd, …)` says `Ok` iff `pwd'` is not longer than `2^32 − 1` bytes and has the
+same RFC 9106 Argon2id tag as `pwd` under the recorded salt and costs — every other value is
+rejected -/
+theorem pwhashStr_model_verify_iff {pwd salt : Bytes} {opslimit memlimit : Nat} {s : Str}
+    (h7 : 7 * (memlimit / 1024 / 4) < 2 ^ 32 + 3)
+    (h : pwhashStr argon2Model pwd salt opslimit memlimit = .ok s) (pwd' : Bytes) :
+    strVerify argon2Model s pwd' = .ok () ↔
+      pwd'.length ≤ 0xFFFFFFFF ∧
+      Spec.Argon2.argon2 2 pwd' salt [] [] opslimit (memlimit / 1024) 1 32
+        = Spec.Argon2.argon2 2 pwd salt [] [] opslimit (memlimit / 1024) 1 32 :=
+  Proofs.PwhashExtra.pwhashStr_model_verify_iff h7 h pwd'
+
+/-- verification of an arbitrary accepted string (not only a producer output) in RFC terms -/
+theorem strVerify_model_iff {s : Str} {ty : Alg} {t m : Nat} {salt hash : Bytes} (pwd : Bytes)
+    (hp : parse s = .ok { pwhash := some hash, salt := some salt, ty := some ty, t := some t,
+                          m := some m, p := some 1, version := some 19 })
+    (ht : 1 ≤ t) (hm8 : 8 ≤ m) (hsalt : 8 ≤ salt.length ∧ salt.length ≤ 0xFFFFFFFF)
+    (h7 : 7 * (m / 4) < 2 ^ 32 + 3) :
+    strVerify argon2Model s pwd = .ok () ↔
+      pwd.length ≤ 0xFFFFFFFF ∧ Spec.Argon2.argon2 ty.num pwd salt [] [] t m 1 32 = hash :=
+  Proofs.PwhashExtra.strVerify_model_of_parse pwd hp ht hm8 hsalt h7
+
+/-- non-vacuity witness for §12: the hypothesis `h` of `pwhashStr_model_sound` /
+`pwhashStr_model_verify_iff` is satisfiable (left disjunct of `pwhashStr_model_total`) at
+`OPSLIMIT_MIN`, `MEMLIMIT_MIN`, a 4-byte password and a 16-byte salt, where `h7` holds too -/
+example : ∃ s, pwhashStr argon2Model [1, 2, 3, 4] [0, 1, 2, 3, 4, 5, 6, 7, 8, 9, 10, 11, 12, 13, 14, 15]
+    1 8192 = .ok s ∧ 7 * (8192 / 1024 / 4) < 2 ^ 32 + 3 := by
+  rcases pwhashStr_model_total (pwd := [1, 2, 3, 4])
+    (salt := [0, 1, 2, 3, 4, 5, 6, 7, 8, 9, 10, 11, 12, 13, 14, 15]) (opslimit := 1)
+    (memlimit := 8192) (by decide) with ⟨_, e⟩ | ⟨hn, _⟩
+  · exact ⟨_, e, by decide⟩
+  · exact absurd (by constructor <;> decide) hn
+
+/-! ## 13. `crypto_pwhash_str_verify` never panics — with the hypothesis of
+`strVerify_never_panics` discharged for the project's Argon2 model -/
+
+/-- **`crypto_pwhash_str_verify` (with the model of `argon2_hash`) never panics**, on any string
+and any password, provided the `m=` cost of the string — if it parses — satisfies
+`7·⌊max(m, 8)/4⌋ − 3 < 2^32` (`m ≲ 2.45·10^9` KiB ≈ 2.28 TiB; the bound of
+`C09.argon2Hash_no_panic` for one lane).  The bound cannot be dropped: the parser accepts
+`m=4294967295`, for which `index_alpha` overflows (`C09.index_alpha_overflow_witness`). -/
+theorem strVerify_model_never_panics (s : Str) (pwd : Bytes)
+    (hmem : ∀ r m, parse s = .ok r → r.m = some m → 7 * (max m 8 / 4) < 2 ^ 32 + 3) :
+    strVerify argon2Model s pwd ≠ .panic :=
+  Proofs.PwhashExtra.strVerify_model_ne_panic s pwd hmem
+
+/-- non-vacuity witnesses: `hmem` holds vacuously for rejected strings, and non-vacuously for
+accepted ones with a moderate cost (here even with `m < 8`, `t = 0`: an `Err`, not a panic) … -/
+example : ∀ r m, parse "$argon2id$v=19$m=1,t=0,p=1$AA$/w".toList = .ok r → r.m = some m →
+    7 * (max m 8 / 4) < 2 ^ 32 + 3 := by
+  intro r m hp hm
+  have : parse "$argon2id$v=19$m=1,t=0,p=1$AA$/w".toList =
+    .ok { pwhash := some [255], salt := some [0], ty := some .argon2id, t := some 0,
+          m := some 1, p := some 1, version := some 19 } := by decide
+  rw [this] at hp; cases hp; cases hm; decide
+/-- … while a string the parser accepts can violate it -/
+example : parse "$argon2id$v=19$m=4294967295,t=1,p=1$AA$/w".toList =
+      .ok { pwhash := some [255], salt := some [0], ty := some .argon2id, t := some 1,
+            m := some 4294967295, p := some 1, version := some 19 }
+    ∧ ¬ 7 * (max 4294967295 8 / 4) < 2 ^ 32 + 3 := by decide
 
 /-! ## non-vacuity -/
 
